@@ -81,12 +81,16 @@ def cstr(s: str) -> str:
 
 # --------------------------------------------------------------------------
 class Lock:
-    def __init__(self, name="coq.lock"):
+    """Exclusive while the Coq tree is (re)built or a generated file is written, shared while compiled files are
+    only read (evaluation of case files): checks may run in parallel, and a rebuild triggered by one of them never
+    overlaps an evaluation by another ("inconsistent assumptions over PF.Gen.Tables")."""
+    def __init__(self, name="coq.lock", shared=False):
         self.path = os.path.join(BUILD, name)
+        self.shared = shared
 
     def __enter__(self):
-        self.f = open(self.path, "w")
-        fcntl.flock(self.f, fcntl.LOCK_EX)
+        self.f = open(self.path, "a")
+        fcntl.flock(self.f, fcntl.LOCK_SH if self.shared else fcntl.LOCK_EX)
         return self
 
     def __exit__(self, *a):
@@ -152,8 +156,11 @@ def gen_tables():
     body = txt[txt.index("(* BEGIN TABLES *)"):]
     old = open(out).read() if os.path.exists(out) else None
     if old != body:
-        with open(out, "w") as f:
-            f.write(body)
+        with Lock():
+            tmp = out + f".tmp{os.getpid()}"
+            with open(tmp, "w") as f:
+                f.write(body)
+            os.replace(tmp, out)
     return True, ""
 
 
@@ -209,7 +216,8 @@ def check_props(prop: str):
     tp = os.path.join(tmp, f"{prop}_pa.v")
     with open(tp, "w") as f:
         f.write(src)
-    rc, out = coqc_file(tp)
+    with Lock(shared=True):
+        rc, out = coqc_file(tp)
     if rc != 0:
         res["ok"] = False
         res["log"] = out[-4000:]
@@ -250,7 +258,7 @@ def run_coq_cases(prop: str, header: str, terms: list, shard=400, timeout=900):
     failing, logs, ok = [], [], True
     # run in parallel
     from concurrent.futures import ThreadPoolExecutor
-    with ThreadPoolExecutor(max_workers=NCPU) as ex:
+    with Lock(shared=True), ThreadPoolExecutor(max_workers=NCPU) as ex:
         results = list(ex.map(lambda p: coqc_file(p, timeout), files))
     for p, (rc, out) in zip(files, results):
         if rc != 0:
